@@ -460,4 +460,77 @@ def parseTwice (orc : Oracle) (includeDefault : Bool) (decls : List Decl) (files
 def fatalIfError (isNil : Bool) : Option Unit := if isNil then some () else none
 
 
+/-! ### the option variables as a store (transcription of `GeneralValue.Set`, values.go:32-173)
+
+A variable holds a list of typed values in canonical text (exactly one for a scalar).  `setVar` is one call of
+`Value.Set` on one variable, case by case as the type switch of values.go: the scalar kinds overwrite, the slice kinds
+append; bool through `strconv.ParseBool`, the integer kinds through `strconv.ParseInt/ParseUint(str, 0, bits)` with the
+bit size of the kind (so the narrowing conversion is exact), string as is; float and duration acceptance and values are
+the parameter `orc`.  (For `*bool`, `*int64`, `*uint64`, `*float64` and `*time.Duration` the Go code assigns the result
+of the failed conversion before returning the error; the error is fatal, so that store is never observed.) -/
+
+abbrev Var := List String
+abbrev Store := Nat → Var     -- by option id
+
+def setVar (orc : Oracle) (k : Kind) (cur : Var) (raw : Str) : Option Var :=
+  match k.base, k.slice with
+  | .bool, false => (parseBool raw).map (fun b => [toString b])                       -- *bool
+  | .bool, true => (parseBool raw).map (fun b => cur ++ [toString b])                 -- *[]bool
+  | .int bits, false => (parseInt bits raw).map (fun v => [toString v])               -- *int, *int8 … *int64
+  | .int bits, true => (parseInt bits raw).map (fun v => cur ++ [toString v])         -- *[]int, *[]int8 … *[]int64
+  | .uint bits, false => (parseUint bits raw).map (fun v => [toString v])             -- *uint, *uint8 … *uint64
+  | .uint bits, true => (parseUint bits raw).map (fun v => cur ++ [toString v])       -- *[]uint, *[]uint8 … *[]uint64
+  | .f32, false => (orcFind orc tagF32 raw).map (fun v => [v])                        -- *float32
+  | .f32, true => (orcFind orc tagF32 raw).map (fun v => cur ++ [v])
+  | .f64, false => (orcFind orc tagF64 raw).map (fun v => [v])                        -- *float64
+  | .f64, true => (orcFind orc tagF64 raw).map (fun v => cur ++ [v])
+  | .str, false => some [hexOf raw]                                                   -- *string
+  | .str, true => some (cur ++ [hexOf raw])                                           -- *[]string
+  | .dur, false => (orcFind orc tagDur raw).map (fun v => [v])                        -- *time.Duration
+  | .dur, true => (orcFind orc tagDur raw).map (fun v => cur ++ [v])                  -- *[]time.Duration
+  | .log, _ => if raw = strReject then none else some (cur ++ [hexOf raw])            -- the harness's logging Value
+  | .wbool, false => (parseBool raw).map (fun b => [toString b])                      -- a bool behind a user Value
+  | .wbool, true => (parseBool raw).map (fun b => cur ++ [toString b])
+
+/-- `setOrFail` on the store: the option's variable is updated by its `Set`; an error leaves the store alone (and is
+    fatal in the scanner) -/
+def setOpt (orc : Oracle) (includeDefault : Bool) (decls : List Decl) (st : Store) (p : Nat × Str) : Store :=
+  match kindOfId includeDefault decls p.1 with
+  | none => st
+  | some k =>
+    match setVar orc k (st p.1) p.2 with
+    | none => st
+    | some v => fun j => if j = p.1 then v else st j
+
+/-- the assignments of a run applied in order -/
+def applySets (orc : Oracle) (includeDefault : Bool) (decls : List Decl) (st : Store) (sets : List (Nat × Str)) : Store :=
+  sets.foldl (setOpt orc includeDefault decls) st
+
+/-- the caller's initial contents of a variable (given as raw strings, converted with the conversion of the kind) -/
+def initVar (orc : Oracle) (k : Kind) (defs : List Str) : Var := defs.filterMap (typed orc k.base)
+
+def initStore (orc : Oracle) (decls : List Decl) : Store := fun id =>
+  if id < firstUserId then ["false"]
+  else match decls[id - firstUserId]? with
+    | some d => initVar orc d.kind d.defs
+    | none => []
+
+def renderVar (d : Decl) (v : Var) : String :=
+  if d.kind.slice || d.kind.base == .log then "[" ++ ",".intercalate v ++ "]" else ",".intercalate v
+
+def renderStoreOpts (st : Store) : Nat → List Decl → List String
+  | _, [] => []
+  | id, d :: ds => renderVar d (st id) :: renderStoreOpts st (id + 1) ds
+
+/-- what the driver prints: the option variables after all `Set` calls of the run, then the remaining arguments -/
+def renderStore (orc : Oracle) (includeDefault : Bool) (decls : List Decl) : Outcome → String
+  | .fatal => "fatal"
+  | .help => "help"
+  | .longVersion => "longversion"
+  | .version => "version"
+  | .done a =>
+    " ".intercalate (("ok" :: renderStoreOpts (applySets orc includeDefault decls (initStore orc decls) a.sets)
+      firstUserId decls) ++ ("|" :: a.rest.map hexOf))
+
+
 end Cmd
